@@ -123,6 +123,20 @@ D = {
  'C11-close-poisoned-lock-r4': ('C11', 'close() takes the ids mutex with unwrap(); add_signal returns early when closed (round 4)', 'a contained panicking add_signal, then close()'),
  'C10-constructor-one-lock-duplicates': ('C10', 'with_pipe registers the initial list under one lock through the internal add_signal (no duplicate check)', 'a signal listed twice in the constructor list, info-carrying exfiltrator'),
  'C10-reclaim-guard-underscore': ('C10', 'recv hands the slot back through a drop guard bound with `let _ =`', 'a full buffer and a delivery between the release and the take'),
+ 'C16-kill-getpid-r4': ('C16', 'the Term branch re-raises with kill(getpid()) (round 4)', 'a second thread calls the emulation for a core-dumping signal'),
+ 'C16-unblocks-every-signal': ('C16', 'prepare_sigset uses sigfillset: the emulation unblocks every signal', 'another signal blocked and pending at the call: it is delivered first'),
+ 'C01-new-slot-premarked-r4': ('C01', 'write_barrier marks the new generation\'s slot as seen without looking (round 4)', 'a delivery preempted between its generation load and its increment across one write, then a second write'),
+ 'C01-barrier-gives-up': ('C01', 'write_barrier gives up after 2^22 spins and store() then leaks the old snapshot', 'a delivery that stays in the handler longer than ~0.2-0.5 s: the removal returns while the action runs'),
+ 'C03-setfd-copy-paste': ('C03', 'set_flags refactored into a helper; the second call writes O_NONBLOCK with F_SETFD', 'a full pipe (non-socket write end): the handler sleeps in write(2)'),
+ 'C03-weak-write-end': ('C03', 'the iterator action holds the write end weakly and upgrades it per delivery', 'the last handle dropped while a delivery on another thread is between upgrade and send: the write end\'s drop runs inside the handler'),
+ 'C18-error-path-self-deadlock': ('C18', 'the Err arm of Slot::new clears the fallback while its own read guard (if-let scrutinee) is alive', 'register_signal_unchecked(SIGKILL / SIGSTOP): the call spins forever holding the data mutex'),
+ 'C18-update-seen-short-circuit': ('C18', 'update_seen uses Iterator::all: the second slot is not inspected while the first is busy', 'an even generation, a delivery in flight at the first pass and a gap-free stream of overlapping deliveries'),
+ 'C02-unregister-signal-early-clone-r4': ('C02', 'unregister_signal clones through a read guard before it takes the write mutex (round 4)', 'a registration of another signal completing in between is overwritten'),
+ 'C02-vec-swap-remove-r4': ('C02', 'actions in a Vec, unregister with swap_remove (round 4)', 'register A B C D, remove D, remove A: C runs before B'),
+ 'C04-flags-inherited-r4': ('C04', 'Slot::new ORs the previous handler\'s sa_flags into the library handler\'s (round 4)', 'a previous SA_RESETHAND handler: the first delivery chains correctly, then the disposition is SIG_DFL'),
+ 'C04-fallback-reset-outside-lock-r4': ('C04', 'the fallback is reset after a first registration, outside the data lock (round 4)', 'two concurrent first registrations and a delivery in the second one\'s window'),
+ 'C17-zero-means-none-r4': ('C17', 'pid 0 and uid 0 mean "no process" on every platform (round 4)', 'a root sender outside the PID namespace'),
+ 'C17-sigchld-table-shortcut': ('C17', 'extract.c starts the table search at the CLD_* rows whenever si_signo == SIGCHLD', 'a SIGCHLD sent by kill / sigqueue / raise: cause Unknown, no process'),
  'C18-unregister-read-then-write': ('C18', 'unregister looks the id up under a read guard that is still held while write() blocks', 'two mutators: one holds the mutex before its barrier\'s first check, the other\'s unregister has incremented a reader slot and blocks on the mutex'),
 }
 for name, (prop, change, needs) in D.items():
